@@ -1,7 +1,10 @@
 """C17 — Schema union and lookup are identity-based, ordered and non-mutating.
 
 A case is a table of column definitions, a list of schemas over that table (registers) and a
-program of operations (`add`, `find`, `col`, `pop`, `allnames`, `names`, `iter`).  It is run
+program of operations (`add`, `find`, `col`, `pop`, `allnames`, `names`, `iter`; `mkiter` / `next` / `drain`: an
+iterator obtained with `iter(schema)`, advanced step by step while other operations go on).  A lookup key is a string or
+`["@", column, what]`: "the text of that attribute of that column" (its identity, `str()`, `repr()`, type name … and
+near-misses of them), resolved on the objects when the case is run.  It is run
 
 * on the real `orso.schema.RelationSchema` / `FlatColumn` objects (`execute`), with the property's
   **oracle** evaluated inline on the implementation's own state and outputs (operands are
@@ -49,9 +52,10 @@ def build_columns(case):
     for idx, spec in enumerate(case["cols"]):
         ident, name, aliases = spec[0], spec[1], spec[2]
         kind = spec[3] if len(spec) > 3 else "flat"
+        extras = spec[4] if len(spec) > 4 else None
         key = None
         if ident is not None:
-            key = (idx, ident, name, None if aliases is None else tuple(aliases), kind)
+            key = (idx, ident, name, None if aliases is None else tuple(aliases), kind, repr(sorted(extras.items())) if extras else None)
             c = _COL_CACHE.get(key)
             if c is not None:
                 objs.append(c)
@@ -61,6 +65,8 @@ def build_columns(case):
             kw["identity"] = _fresh(ident)
         if kind == "const":
             kw["value"] = 1
+        for k, v in (extras or {}).items():
+            kw[k] = [_fresh(x) for x in v] if isinstance(v, list) else _fresh(v)
         c = o[kind](**kw)
         if key is not None:
             if len(_COL_CACHE) > 20000:
@@ -68,6 +74,74 @@ def build_columns(case):
             _COL_CACHE[key] = c
         objs.append(c)
     return objs
+
+
+# ----------------------------------------------------------------------------- keys taken from a column's other attributes
+
+# A name is a name or an alias and nothing else: a key that is *absent* as a name but equals some other text a column
+# carries (its identity -- 16 random hex characters by default, or caller-chosen --, str(column), repr(column), its type,
+# description, origin, class) must not find it.  `["@", t, what]` is "that text of column t", `what` = attribute, or
+# attribute~variant for a near-miss of it.
+ATTR_KEYS = ("identity", "str", "repr", "type", "type.name", "type.value", "description", "origin", "class", "default", "nullable")
+ATTR_VARIANTS = ("upper", "lower", "swapcase", "space", "lead", "cut", "dbl")
+
+
+def _attr_text(c, what):
+    base, _, var = what.partition("~")
+    if base == "identity":
+        v = c.identity
+    elif base == "str":
+        v = str(c)
+    elif base == "repr":
+        v = repr(c)
+    elif base == "type":
+        v = str(c.type)
+    elif base == "type.name":
+        v = getattr(c.type, "name", c.type)
+    elif base == "type.value":
+        v = getattr(c.type, "value", c.type)
+    elif base == "origin":
+        v = c.origin[0] if c.origin else None
+    elif base == "class":
+        v = type(c).__name__
+    elif base in ("description", "default", "nullable"):
+        v = getattr(c, base)
+    else:
+        raise InfraError("unknown attribute key %r" % (what,))
+    if not isinstance(v, str):
+        v = str(v)
+    if var == "":
+        return v
+    if var in ("upper", "lower", "swapcase"):
+        return getattr(v, var)()
+    if var == "space":
+        return v + " "
+    if var == "lead":
+        return " " + v
+    if var == "cut":
+        return v[:-1]
+    if var == "dbl":
+        return v + v
+    raise InfraError("unknown variant %r" % (what,))
+
+
+def _is_attr_key(k, ncols):
+    return (isinstance(k, list) and len(k) == 3 and k[0] == "@" and type(k[1]) is int and 0 <= k[1] < ncols and isinstance(k[2], str)
+            and k[2].partition("~")[0] in ATTR_KEYS and k[2].partition("~")[2] in ("",) + ATTR_VARIANTS)
+
+
+def resolve_prog(case, objs):
+    """the program with every `["@", t, what]` key replaced by the text it stands for on this run's objects"""
+    prog = case["prog"]
+    if not any(op[0] in ("find", "col", "pop") and isinstance(op[2], list) for op in prog):
+        return prog
+    out = []
+    for op in prog:
+        if op[0] in ("find", "col", "pop") and isinstance(op[2], list):
+            op = list(op)
+            op[2] = _attr_text(objs[op[2][1]], op[2][2])
+        out.append(op)
+    return out
 
 
 _ALIASES_FIRST = None
@@ -118,6 +192,16 @@ def execute(case):
     cols = case["cols"]
     objs = build_columns(case)
     idents = [c.identity for c in objs]
+    prog = resolve_prog(case, objs)
+    other_text = {}
+    for t, c in enumerate(objs):
+        other_text.setdefault(idents[t], "identity")
+        if c.description is not None:
+            other_text.setdefault(c.description, "description")
+        for x in c.origin or ():
+            other_text.setdefault(x, "origin")
+    other_fold = {k.casefold().strip(): v for k, v in other_text.items() if isinstance(k, str)}
+    iters = []  # [python iterator, names of its schema when it was obtained, how many it has yielded, register]
     tag_of = {id(c): t for t, c in enumerate(objs)}
     names = [c[1] for c in cols]
     aliases = [c[2] for c in cols]
@@ -128,7 +212,8 @@ def execute(case):
     meta = [(s[0], list(s[1])) for s in case["schemas"]]
     state = [list(s[2]) for s in case["schemas"]]
     outs = []
-    res = {"outs": outs, "final": None, "clause": None, "at": None, "idents": idents, "num_columns": None, "hits": []}
+    res = {"outs": outs, "final": None, "clause": None, "at": None, "idents": idents, "num_columns": None, "hits": [],
+           "resolved": case if prog is case["prog"] else dict(case, prog=prog)}
 
     def tags(schema):
         return [tag_of.get(id(c), -1) for c in schema.columns]
@@ -160,9 +245,47 @@ def execute(case):
             return True
         return bool(ci) and t == first_bearing(P, key, ci, fold=True)
 
-    for n, op in enumerate(case["prog"]):
+    ITER_CLAUSE = "an iterator did not yield the names its schema had when the iterator was obtained, each once and in order"
+    for n, op in enumerate(prog):
         kind = op[0]
-        if kind == "add":
+        if kind in ("mkiter", "next", "drain"):
+            target = -1  # an iterator is not a schema: nothing at all may move
+            try:
+                if kind == "mkiter":
+                    sch = regs[op[1]]
+                    it = iter(sch)
+                    if not hasattr(it, "__next__"):
+                        outs.append(["foreign", type(it).__name__])
+                        return fail(n, "iter(schema) is not an iterator")
+                    iters.append([it, [names[u] for u in state[op[1]]], 0, op[1]])
+                    outs.append(["iter", len(iters) - 1])
+                    if tags(sch) != state[op[1]]:
+                        return fail(n, "a lookup changed the schema's columns")
+                else:
+                    rec = iters[op[1]]
+                    res["hits"].append("iter:%s:%s" % (kind, "schema-unchanged-since-obtained" if [names[u] for u in state[rec[3]]] == rec[1]
+                                                      else "exhausted" if rec[2] >= len(rec[1]) else "schema-changed-since-obtained"))
+                    if kind == "next":
+                        try:
+                            x = next(rec[0])
+                            outs.append(["item", x] if isinstance(x, str) else ["foreign", type(x).__name__])
+                            got = [x]
+                        except StopIteration:
+                            outs.append(["stop"])
+                            got = []
+                        want = rec[1][rec[2] : rec[2] + 1]
+                        rec[2] = min(rec[2] + 1, len(rec[1]))
+                    else:
+                        got = [x for x in rec[0]]
+                        outs.append(["rest", got] if all(isinstance(x, str) for x in got) else ["foreign", "list"])
+                        want = rec[1][rec[2] :]
+                        rec[2] = len(rec[1])
+                    if got != want:
+                        return fail(n, ITER_CLAUSE)
+            except Exception as e:
+                outs.append(["raised", type(e).__name__])
+                return fail(n, "%s raised %s" % ("iter(schema)" if kind == "mkiter" else "advancing an iterator", type(e).__name__))
+        elif kind == "add":
             i, j = op[1], op[2]
             a, b = regs[i], regs[j]
             A, B = state[i], state[j]
@@ -231,6 +354,12 @@ def execute(case):
             Q = tags(sch)
             if kind in ("find", "col", "pop") and isinstance(op[2], str):
                 _lookalike_hits(res["hits"], kind, op[2], P, names, alln)
+                _other_text_hits(res["hits"], kind, op[2], P, alln, alln_lower, other_text, other_fold, idents)
+            if kind == "pop" and iters:
+                for rec in iters:
+                    if rec[3] == r and rec[2] < len(rec[1]):
+                        res["hits"].append("iter:removal-while-an-iterator-is-under-way:%s" % (
+                            "nothing-removed" if len(Q) == len(P) else "a-column-removed"))
             if kind in ("find", "col", "pop"):
                 if got is IndexError:
                     out = ["IndexError"]
@@ -307,10 +436,10 @@ def execute(case):
         if c.name != names[t] or c.identity != idents[t] or c.aliases != aliases[t]:
             for k in [k for k, v in _COL_CACHE.items() if v is c]:
                 del _COL_CACHE[k]
-            return fail(len(case["prog"]), "a column's name, aliases or identity was modified")
+            return fail(len(prog), "a column's name, aliases or identity was modified")
     for q, sch in enumerate(regs):
         if sch.name != meta[q][0] or list(sch.aliases) != meta[q][1]:
-            return fail(len(case["prog"]), "a schema's name or aliases were modified")
+            return fail(len(prog), "a schema's name or aliases were modified")
     res["final"] = [list(s) for s in state]
     return res
 
@@ -334,6 +463,21 @@ def _lookalike_hits(out, kind, key, P, names, alln):
                                                           else "absent-name" if want is None else "position-holds-another-column"))
 
 
+def _other_text_hits(out, kind, key, P, alln, alln_lower, other_text, other_fold, idents):
+    """input distribution: keys that no column of the schema bears but that equal (or nearly equal) some *other* text a
+    column of the case carries"""
+    what = other_text.get(key)
+    near = None if what is not None else other_fold.get(key.casefold().strip())
+    if what is None and near is None:
+        return
+    borne = any(key in alln[t] for t in P)
+    borne_ci = borne or any(key.lower() in alln_lower[t] for t in P)
+    where = "of-a-column-of-the-schema" if (what or near) != "identity" or any(idents[t].casefold() == key.casefold().strip() for t in P) \
+        else "of-a-column-elsewhere"
+    out.append("%s:key-%s-the-%s-%s:%s" % (kind, "is" if what else "is-a-near-miss-of", what or near, where,
+                                          "also-a-name" if borne else "a-name-only-ignoring-case" if borne_ci else "nobody's-name"))
+
+
 # ----------------------------------------------------------------------------- mirror (pure spec)
 
 
@@ -343,6 +487,7 @@ def mirror(case, idents):
     regs = [list(s[2]) for s in case["schemas"]]
     meta = [(s[0], list(s[1])) for s in case["schemas"]]
     outs = []
+    iters = []  # [names when obtained, position]
 
     def first(P, key, ci):
         for t in P:
@@ -357,6 +502,23 @@ def mirror(case, idents):
             regs.append(R)
             meta.append(meta[op[1]])
             outs.append(["schema", meta[op[1]][0], list(meta[op[1]][1]), list(R)])
+            continue
+        if kind == "mkiter":
+            iters.append([[names[t] for t in regs[op[1]]], 0])
+            outs.append(["iter", len(iters) - 1])
+            continue
+        if kind == "next":
+            it = iters[op[1]]
+            if it[1] < len(it[0]):
+                outs.append(["item", it[0][it[1]]])
+                it[1] += 1
+            else:
+                outs.append(["stop"])
+            continue
+        if kind == "drain":
+            it = iters[op[1]]
+            outs.append(["rest", it[0][it[1]:]])
+            it[1] = len(it[0])
             continue
         P = regs[op[1]]
         if kind == "find":
@@ -415,7 +577,11 @@ def valid_case(c):
         if not isinstance(c, dict) or set(c) - {"cols", "schemas", "prog", "note"}:
             return False
         for col in c["cols"]:
-            if not isinstance(col, list) or len(col) not in (3, 4):
+            if not isinstance(col, list) or len(col) not in (3, 4, 5):
+                return False
+            if len(col) == 5 and not (isinstance(col[4], dict) and set(col[4]) <= {"description", "origin"}
+                                      and isinstance(col[4].get("description", ""), str)
+                                      and isinstance(col[4].get("origin", []), list) and all(isinstance(x, str) for x in col[4].get("origin", []))):
                 return False
             if col[0] is not None and not isinstance(col[0], str):
                 return False
@@ -423,7 +589,7 @@ def valid_case(c):
                 return False
             if col[2] is not None and not (isinstance(col[2], list) and all(isinstance(x, str) for x in col[2])):
                 return False
-            if len(col) == 4 and col[3] not in ("flat", "const", "func"):
+            if len(col) >= 4 and col[3] not in ("flat", "const", "func"):
                 return False
         n = len(c["cols"])
         for s in c["schemas"]:
@@ -434,12 +600,22 @@ def valid_case(c):
             if not (isinstance(s[2], list) and all(type(x) is int and 0 <= x < n for x in s[2])):
                 return False
         nregs = len(c["schemas"])
+        niters = 0
         if not isinstance(c["prog"], list) or not c["prog"]:
             return False
         for op in c["prog"]:
             if not isinstance(op, list) or not op:
                 return False
             k = op[0]
+            if k == "mkiter":
+                if len(op) != 2 or type(op[1]) is not int or not 0 <= op[1] < nregs:
+                    return False
+                niters += 1
+                continue
+            if k in ("next", "drain"):
+                if len(op) != 2 or type(op[1]) is not int or not 0 <= op[1] < niters:
+                    return False
+                continue
             if k == "add":
                 if len(op) != 3 or not all(type(x) is int and 0 <= x < nregs for x in op[1:]):
                     return False
@@ -449,11 +625,11 @@ def valid_case(c):
                 return False
             if len(op) < 2 or type(op[1]) is not int or not 0 <= op[1] < nregs:
                 return False
-            if k == "find" and not (len(op) == 4 and isinstance(op[2], str) and type(op[3]) is bool):
+            if k == "find" and not (len(op) == 4 and (isinstance(op[2], str) or _is_attr_key(op[2], n)) and type(op[3]) is bool):
                 return False
-            if k == "pop" and not (len(op) == 3 and isinstance(op[2], str)):
+            if k == "pop" and not (len(op) == 3 and (isinstance(op[2], str) or _is_attr_key(op[2], n))):
                 return False
-            if k == "col" and not (len(op) == 3 and isinstance(op[2], (str, int))):
+            if k == "col" and not (len(op) == 3 and (isinstance(op[2], (str, int)) or _is_attr_key(op[2], n))):
                 return False
             if k in ("allnames", "names", "iter") and len(op) != 2:
                 return False
@@ -483,11 +659,17 @@ def _ci_class(key, names):
     return out
 
 
-def _hits(ctx, c):
+def _hits(ctx, c, raw=None):
     nbase = len(c["schemas"])
     alln = None
+    for op in (raw or c)["prog"]:
+        if op[0] in ("find", "col", "pop") and isinstance(op[2], list):
+            ctx.hit("key-from-an-attribute:%s%s" % (op[2][2].partition("~")[0], ":near-miss" if "~" in op[2][2] else ""))
     for op in c["prog"]:
         k = op[0]
+        if k in ("mkiter", "next", "drain"):
+            ctx.hit("op:" + k)
+            continue
         if k == "add" and op[1] < nbase and op[2] < nbase:
             A, B = c["schemas"][op[1]][2], c["schemas"][op[2]][2]
             ida, idb = [c["cols"][t][0] for t in A], [c["cols"][t][0] for t in B]
@@ -534,19 +716,19 @@ def evaluate(ctx, cases, stats=True):
     for c in cases:
         r = execute(c)
         results.append(r)
-        lines.append(model_line(c, r["idents"]))
+        lines.append(model_line(r["resolved"], r["idents"]))
     mouts = ctx.model.batch(lines)
     for c, r, line, mo in zip(cases, results, lines, mouts):
         nontrivial = any(s[2] for s in c["schemas"])
         ctx.case(c, nontrivial, key=None if any(col[0] is None for col in c["cols"]) else line)
         if stats:
-            _hits(ctx, c)
+            _hits(ctx, r["resolved"], c)
             for h in r.get("hits") or ():
                 ctx.hit(h)
         if not mo.startswith("ok "):
             raise InfraError("model rejected case %r: %r" % (c, mo))
         m = wire.dec_all(mo[3:])
-        mir_outs, mir_regs = mirror(c, r["idents"])
+        mir_outs, mir_regs = mirror(r["resolved"], r["idents"])
         if m[0] != mir_outs or m[1] != mir_regs:
             raise InfraError("Lean model and Python mirror differ on %r: model %r mirror %r" % (c, m, (mir_outs, mir_regs)))
         for out in m[0]:
@@ -604,7 +786,7 @@ def evaluate(ctx, cases, stats=True):
             r2 = execute(c_min)
             mo2 = None
             try:
-                o2 = ctx.model.one(model_line(c_min, r2["idents"]))
+                o2 = ctx.model.one(model_line(r2["resolved"], r2["idents"]))
                 mo2 = wire.dec_all(o2[3:])[0] if o2.startswith("ok ") else o2
             except Exception:
                 pass
@@ -639,7 +821,7 @@ def evaluate_all(ctx, gen, batch=4000, stats=True):
 # ----------------------------------------------------------------------------- generators
 
 NAMES3 = ["a", "A", "b"]
-KEYS = ["a", "A", "b", "B", "c"]
+KEYS = ["a", "A", "b", "B", "c", "i0", "I1"]  # i0, I1: the identity of the first column / of the second in another case
 ALIASES6 = [None, [], ["a"], ["A"], ["b"], ["b", "a"]]
 ALIASES3 = [None, ["a"], ["b"]]
 
@@ -810,9 +992,19 @@ def gen_histories(depths, starts, alpha=None):
         for d in depths:
             for hist in itertools.product(alpha, repeat=d):
                 nregs = 2
+                niters = 0
                 ok = True
                 for op in hist:
-                    if op[0] == "add":
+                    if op[0] == "mkiter":
+                        if op[1] >= nregs:
+                            ok = False
+                            break
+                        niters += 1
+                    elif op[0] in ("next", "drain"):
+                        if op[1] >= niters:
+                            ok = False
+                            break
+                    elif op[0] == "add":
                         if op[1] >= nregs or op[2] >= nregs:
                             ok = False
                             break
@@ -874,6 +1066,102 @@ def gen_frame_interleavings(depth):
                 yield {"cols": st["cols"], "schemas": st["schemas"], "prog": prog}
 
 
+def history_alphabet_iter():
+    """lookups, removals and sums with an iteration (or two) under way"""
+    return [
+        ["find", 0, "a", False], ["pop", 0, "a"], ["pop", 0, "b"], ["pop", 1, "a"], ["add", 0, 1], ["names", 0], ["pop", 2, "a"],
+        ["mkiter", 0], ["next", 0], ["drain", 0], ["mkiter", 2], ["next", 1],
+    ]
+
+
+ITER_LAYOUTS = [["a"], ["a", "b"], ["a", "b", "c"], ["a", "a", "b"], ["a", "b", "a"], ["a", "b", "c", "d"]]
+
+
+def gen_iter_interleavings(depth, layouts=None):
+    """An iteration in progress interleaved with everything else: the iterator is obtained first (`iter(schema)`, what a
+    `for name in schema:` loop does), then every sequence of <= depth steps over: advance it, remove any of the schema's
+    columns by name, remove from the other schema (which holds the same column objects in reverse order), build the sum,
+    obtain a second iterator (over the schema as it is then, or over the sum) and advance that; at the end every iterator
+    is drained and the schema listed.  The reference is an iterator over the names *as they were when it was obtained*."""
+    for names in layouts or ITER_LAYOUTS:
+        n = len(names)
+        cols = [["i%d" % p, nm, None] for p, nm in enumerate(names)]
+        schemas = [["L", [], list(range(n))], ["R", [], list(range(n - 1, -1, -1))]]
+        distinct = list(dict.fromkeys(names))
+        alpha = [["next", 0]] + [["pop", 0, x] for x in distinct] + [["pop", 1, distinct[0]], ["add", 0, 1], ["mkiter", 0], ["next", 1],
+                                                                        ["mkiter", 2], ["drain", 0]]
+        for d in range(depth + 1):
+            for seq in itertools.product(alpha, repeat=d):
+                nregs, niters, ok = 2, 1, True
+                for op in seq:
+                    if op[0] == "add":
+                        nregs += 1
+                    elif op[0] == "mkiter":
+                        if op[1] >= nregs:
+                            ok = False
+                            break
+                        niters += 1
+                    elif op[0] in ("next", "drain") and op[1] >= niters:
+                        ok = False
+                        break
+                if not ok:
+                    continue
+                prog = [["mkiter", 0]] + [list(op) for op in seq] + [["drain", k] for k in range(niters)] + [["next", 0], ["names", 0], ["iter", 0]]
+                yield {"cols": cols, "schemas": schemas, "prog": prog}
+
+
+ATTR_PROBES = ["identity", "identity~upper", "identity~lower", "identity~swapcase", "identity~space", "identity~lead", "identity~cut", "identity~dbl",
+               "str", "repr", "type", "type.name", "type.value", "type.name~lower", "description", "description~upper", "origin", "class",
+               "class~lower", "default", "nullable"]
+
+
+def gen_absent_attribute_keys(nmax):
+    """Absent keys that equal some *other* text of a column.  Every schema of <= nmax columns over names {a, b} x identities
+    {a, b, A, x} (identities that read like names, in either case, and one that is nobody's name) x aliases {None, [b]}; the
+    first column also carries a description ('x') and an origin (['b', 'o']).  Keys: the names, the identities, their case
+    variants, the schema's own name, and -- for every column -- its identity, str(), repr(), type, type name and value,
+    description, origin, class, default, nullable, with near-misses.  Every key is looked up (exact, ignoring case, through
+    column()); then every column's identity is used as the argument of a removal, the lookups repeated after it."""
+    kinds = [[ident, name, al] for name in ("a", "b") for ident in ("a", "b", "A", "x") for al in (None, ["b"])]
+    for sel in schemas_over(kinds, nmax):
+        cols = [list(kinds[k]) for k in sel]
+        if cols:
+            cols[0] = cols[0] + ["flat", {"description": "x", "origin": ["b", "o"]}]
+        n = len(cols)
+        keys = ["a", "b", "A", "B", "x", "X", "x ", "o", "O", "c", "L", "l"] + [["@", t, a] for t in range(n) for a in ATTR_PROBES]
+        prog = []
+        for k in keys:
+            prog += [["find", 0, k, False], ["find", 0, k, True], ["col", 0, k]]
+        prog.append(["allnames", 0])
+        for t in range(n):
+            prog += [["pop", 0, ["@", t, "identity"]], ["names", 0]]
+            for u in range(n):
+                prog += [["find", 0, ["@", u, "identity"], False], ["col", 0, ["@", u, "identity~upper"]], ["find", 0, ["@", u, "identity~upper"], True]]
+        prog.append(["allnames", 0])
+        yield {"cols": cols, "schemas": [["L", ["l"], list(range(n))]], "prog": prog}
+
+
+def gen_default_identity_keys():
+    """The same for identities nobody chose (16 random hex characters, new on every run): the key is "whatever the identity
+    of column t is"; also through a sum and after a removal."""
+    for names in (["a"], ["a", "b"], ["b", "a", "a"], ["0", "1"]):
+        n = len(names)
+        cols = [[None, nm, None if p % 2 else ["c"]] + (["func"] if p == 1 else []) for p, nm in enumerate(names)]
+        schemas = [["L", [], list(range(n))], ["R", [], [n - 1]]]
+        probes = ["identity", "identity~upper", "identity~cut", "identity~space", "str", "repr", "type.value", "class"]
+        for first in (None, "a", "b"):
+            prog = [["add", 1, 0]]
+            if first is not None:
+                prog.append(["pop", 0, first])
+            for r in (0, 1, 2):
+                for t in range(n):
+                    for a in probes:
+                        prog += [["find", r, ["@", t, a], False], ["find", r, ["@", t, a], True], ["col", r, ["@", t, a]]]
+                    prog += [["pop", r, ["@", t, "identity"]], ["names", r]]
+                prog.append(["allnames", r])
+            yield {"cols": cols, "schemas": schemas, "prog": prog}
+
+
 UNI = ["a", "A", "b", "B", "ab", "aB", "Ab", "é", "É", "ß", "ẞ", "SS", "ss", "İ", "i̇", "i", "I", "ı", "Σ", "σ", "ς",
        "ΑΣ", "ας", "ασ", "ǅ", "ǆ", "Ǆ", "日本", "", " ", "a ", "K", "k", "ﬁ", "FI", "fi", "\U0001f600", "name", "Name", "NAME",
        "0", "1", "2", "-1", "True", "None", " 1", "\uff11", "1.0", "\u00b2"]
@@ -893,6 +1181,9 @@ def random_case(ctx, big=False):
         ascii_only = False
         pool = [str(i) for i in range(max(ncols, 2))] + rng.sample(LOOKALIKE, rng.randint(1, 5))
     idpool = ["i%d" % i for i in range(rng.randint(1, max(1, ncols)))]
+    if rng.random() < 0.25:
+        # caller-chosen identities that read like names ('total'): a key that is nobody's name may be somebody's identity
+        idpool = rng.sample(pool, min(len(pool), len(idpool)))
     cols = []
     for _ in range(ncols):
         r = rng.random()
@@ -928,7 +1219,16 @@ def random_case(ctx, big=False):
     n = nregs
 
     def key():
+        if ncols and rng.random() < 0.1:
+            what = rng.choice(ATTR_KEYS[:3] + ATTR_KEYS[:1] * 3 + ATTR_KEYS)
+            if rng.random() < 0.4:
+                what += "~" + rng.choice(ATTR_VARIANTS)
+            return ["@", rng.randrange(ncols), what]
         r = rng.random()
+        if r > 0.93 and cols:
+            ident = rng.choice(cols)[0]  # some column's identity (of this schema or another) as the key
+            if ident is not None:
+                return rng.choice([ident, ident, ident.upper(), ident + " "])
         base = rng.choice(pool) if r < 0.8 else rng.choice(LOOKALIKE if csv else UNI if not ascii_only else ["zz", "c", "B", "0", "1", "-1", "None"])
         r = rng.random()
         if r < 0.15:
@@ -939,10 +1239,19 @@ def random_case(ctx, big=False):
             return base.swapcase()
         return base
 
+    niters = 0
+    with_iters = rng.random() < 0.4
     for _ in range(rng.randint(1, 12 if not big else 40)):
         r = rng.random()
         q = rng.randrange(n)
-        if r < 0.2:
+        if with_iters and rng.random() < 0.3:
+            # an iteration under way: obtain an iterator, advance one, drain one -- between the other operations
+            if niters == 0 or rng.random() < 0.25:
+                prog.append(["mkiter", q])
+                niters += 1
+            else:
+                prog.append([rng.choice(["next", "next", "next", "drain"]), rng.randrange(niters)])
+        elif r < 0.2:
             prog.append(["add", rng.randrange(n), rng.randrange(n)])
             n += 1
         elif r < 0.4:
@@ -955,6 +1264,7 @@ def random_case(ctx, big=False):
             prog.append(["pop", q, key()])
         else:
             prog.append([rng.choice(["allnames", "names", "iter"]), q])
+    prog += [["drain", k] for k in range(niters)]
     return {"cols": cols, "schemas": schemas, "prog": prog}
 
 
@@ -1122,6 +1432,23 @@ def run(ctx):
         scopes.append("names suggested by the source (string literals and str methods in the observed functions: %s): every schema of <=2 "
                       "columns over the names %r, each looked up under every one of them: %d schemas; <=2 removals with full observation: %d "
                       "histories" % (", ".join(src_why), src_names, n, n2))
+    n = evaluate_all(ctx, gen_absent_attribute_keys(2))
+    n2 = evaluate_all(ctx, gen_default_identity_keys())
+    scopes.append("absent keys that equal some other text of a column: every schema of <=2 columns over names {a,b} x identities {a,b,A,x} x "
+                  "aliases {None,[b]} (first column with description 'x', origin ['b','o']); keys: names, identities, case variants, the schema's "
+                  "name, and per column %r; each key looked up exactly, ignoring case and through column(); then every identity as the argument "
+                  "of a removal, lookups repeated: %d schemas; the same with default (random) identities, through a sum and after a removal: %d "
+                  "programs" % (ATTR_PROBES, n, n2))
+    n = evaluate_all(ctx, gen_iter_interleavings(3))
+    n2 = evaluate_all(ctx, gen_iter_interleavings(4 if q else 5, [["a", "b", "c"]] if q else ITER_LAYOUTS[1:5]))
+    n3 = evaluate_all(ctx, gen_histories(range(1, 4), HISTORY_STARTS, history_alphabet_iter()))
+    n4 = evaluate_all(ctx, gen_histories([4], HISTORY_STARTS[: 1 if q else 4], history_alphabet_iter()))
+    scopes.append("an iteration in progress: the iterator obtained first, then every sequence of <=3 steps (advance it, remove each column by "
+                  "name, remove from the schema that holds the same columns reversed, build the sum, obtain and advance a second iterator over "
+                  "the schema or the sum), all iterators drained at the end, over the layouts %r: %d programs; <=%d steps over %s: %d programs; "
+                  "every history of depth <=3 over %d operations (lookup, removals, sum, obtain / advance / drain an iterator) from %d starting "
+                  "points: %d; of depth 4 from %d: %d" % (ITER_LAYOUTS, n, 4 if q else 5, "a,b,c" if q else "four layouts", n2,
+                                                          len(history_alphabet_iter()), len(HISTORY_STARTS), n3, 1 if q else 4, n4))
     n = evaluate_all(ctx, gen_union_pairs(3, 1, 3, 3))
     n2 = evaluate_all(ctx, gen_union_pairs(2, 2, 2 if q else 3, 2 if q else 3))
     scopes.append("every pair of schemas of <=3 columns over 3 identities (two objects each) and of <=%d columns over 2 identities x 2 names, "
